@@ -64,6 +64,13 @@ Theorem C11_two_ticks_are_one : forall (N : Num) (SV R : Type) pmc smc ts max_dt
 Proof. exact tick_split. Qed.
 Print Assumptions C11_two_ticks_are_one.
 
+(** polling: a tick without readings at the held time reports exactly the held estimate and holds it unchanged *)
+Theorem C11_poll_at_held_time : forall (St R : Type) (pm : QNum -> St -> St) (upd : R -> St -> St) (ts : R -> QNum)
+  (max_dt : Q) (h : Q * St) (out : Q),
+  (0 < max_dt)%Q -> (fst h == out)%Q -> tick_spec QNum St R pm upd ts max_dt h out [] = Some (h, snd h).
+Proof. exact tick_poll_id. Qed.
+Print Assumptions C11_poll_at_held_time.
+
 (** the header's tick overloads have the modelled skeleton (regenerated fact), and its processUpdate is the model's *)
 Theorem C11_cpp_header_as_modelled : cpp_tick_skeleton_as_modelled = true /\
   forall (N : Num) (SV : Type) pmc max_dt cur st out,
